@@ -137,7 +137,7 @@ func WorkerMain(t *testing.T, e Engine) {
 			}
 			runOne(run, "", plan, n < 2)
 			n++
-			if n%64 == 0 {
+			if n%16 == 0 {
 				runtime.GC()
 			}
 		}
